@@ -84,6 +84,7 @@ def judge(s, d):
     flags = d["flags"]
     ncalls = len(flags)
     stop = flags[-1] == "Interrupt"
+    vals = _pad(s)
     tev = [[_f(v) for v in r] for r in d["t_events"]]
     yev = [[_f(v) for v in r] for r in d["y_events"]]
     if not all(d["intact"]):
@@ -144,7 +145,6 @@ def judge(s, d):
             elif fs is None and body != xs[:ncalls - 1]:
                 out.append("with events the accepted step ends are not all reported (before the stop)")
     # events
-    vals = _pad(s)
     counts = [[0] * len(s["configs"]) for _ in range(ncalls)]
     for i, (dd, tc) in enumerate(s["configs"]):
         if len(tev[i]) != len(yev[i]):
@@ -153,6 +153,10 @@ def judge(s, d):
             if a != b:
                 out.append("an event's recorded state is not the interpolant/state at the event time")
                 break
+        for tv in tev[i]:
+            for k in range(min(ncalls, len(xs))):
+                if tv == xs[k] and abs(vals[k][i]) > 2e-12:
+                    out.append(f"an event is recorded at the step end point {tv!r} where its event function is {vals[k][i]!r}, not (numerically) zero")
         for a, b in zip(tev[i], tev[i][1:]):
             if (b - a) * dirn < 0:
                 out.append("events of one function are not in the order of integration")
@@ -183,6 +187,19 @@ def judge(s, d):
     return out
 
 
+def kind_of(text):
+    t = text.lower()
+    if "segment" in t or "dense output" in t:
+        return "dense"
+    if "t_eval" in t or "requested" in t:
+        return "teval"
+    if "event" in t or "interrupt" in t or "terminal" in t or "sign" in t:
+        return "events"
+    if "modified x or y" in t or "flag other than continue" in t or "dense on/off" in t or "differ between dense" in t:
+        return "noninterference"
+    return "samples"
+
+
 def confirm(failed):
     """failed: list of (description, path label, model excerpt, script) from Ob.failed."""
     log = []
@@ -205,6 +222,13 @@ def confirm(failed):
             tried += 1
             results.append((dn, d))
             bad = judge(s, d)
+            if dn and "dense_segs" in d and d["dense_segs"] != len(d["flags"]) - 1:
+                bad.append(f"dense output: {d['dense_segs']} segments stored for {len(d['flags']) - 1} accepted steps")
+            # only a native violation of the same kind as the solver's confirms it; the handler's known limitation for
+            # steps shorter than its absolute 1e-12 slack (sample facts) is outside every claim
+            want = {kind_of(desc)}
+            tiny = any(abs(b - a) <= 4e-12 for a, b in zip(s["xs"], s["xs"][1:]))
+            bad = [b for b in bad if kind_of(b) in want and not (tiny and kind_of(b) in ("samples", "teval", "events"))]
             if bad:
                 src = (f"probe handler  xs={s['xs']} t_eval={s['te']} first_step={s['fs']} dense={dn} configs={s['configs']} "
                        f"end-point values={s['values']}   (real DefaultSolOut via verif-hooks SolOutProbe)")
@@ -212,7 +236,7 @@ def confirm(failed):
                 log.append(f"native: {bad[:3]}")
                 log.append(f"payload: t={d['t']} t_events={d['t_events']} flags={d['flags']}")
                 return True, src, "\n".join(log)
-        if len(results) == 2 and (results[0][1]["t"] != results[1][1]["t"] or results[0][1]["y"] != results[1][1]["y"]):
+        if len(results) == 2 and kind_of(desc) in ("noninterference", "teval", "samples") and (results[0][1]["t"] != results[1][1]["t"] or results[0][1]["y"] != results[1][1]["y"]):
             log.append("native: reported (t, y) differ between dense on/off")
             return True, "probe handler (dense on vs off)", "\n".join(log)
     log.append(f"{tried} native replays of the failing paths: no native violation")
